@@ -422,12 +422,61 @@ struct InclHarness {
 	}
 };
 
+// ------------------------------------------------------------------ argument types callable with several prototypes
+// HeterTuple<void(const std::string&), void(const char*)>: a `const char*` argument is callable with both prototypes and must
+// select the FIRST listed one; a callable taking `const char*` can only be bound to the second prototype.
+typedef eventpp::HeterTuple<void(const std::string &), void(const char *)> HTO;
+struct OverlapHarness {
+	Ctx & ctx;
+	OverlapHarness(Ctx & c) : ctx(c) {}
+	void body(Bfs & b) {
+		ledger().reset();
+		b.stepEnd("start");
+		int cls = b.chooseOp(3);                // HeterCallbackList, HeterEventDispatcher, HeterEventQueue
+		int nS = ctx.ex.choose(3, 3, K_OP);     // number of std::string callbacks
+		int nC = ctx.ex.choose(3, 3, K_OP);     // number of const char* callbacks
+		int arg = ctx.ex.choose(3, 3, K_OP);    // invoke with: std::string, const char*, string literal
+		std::vector<std::string> got, want;
+		const std::string text = "overlap-argument-longer-than-the-small-string-buffer";
+		auto cs = [&](int i) { return [&got, i](const std::string & s) { got.push_back(fmt("S%d:%s", i, s.c_str())); }; };
+		auto cc = [&](int i) { return [&got, i](const char * s) { got.push_back(fmt("C%d:%s", i, s)); }; };
+		static const char * an[] = {"std::string", "const char*", "string literal"};
+		std::string desc = fmt("%s with %d string callbacks and %d const char* callbacks, invoked with a %s", cls == 0 ? "HeterCallbackList" : cls == 1 ? "HeterEventDispatcher" : "HeterEventQueue", nS, nC, an[arg]);
+		ctx.log(desc);
+		const char * cstr = text.c_str();
+		if(cls == 0) {
+			eventpp::HeterCallbackList<HTO> l;
+			for(int i = 0; i < nS; ++i) { auto h = l.append(cs(i)); if(h.index != 0) ctx.fail("bound-to-wrong-prototype", "a std::string callback was not bound to the first prototype"); }
+			for(int i = 0; i < nC; ++i) { auto h = l.append(cc(i)); if(h.index != 1) ctx.fail("bound-to-wrong-prototype", "a const char* callback was not bound to the second prototype"); }
+			if(arg == 0) l(text); else if(arg == 1) l(cstr); else l("overlap-argument-longer-than-the-small-string-buffer");
+		}
+		else if(cls == 1) {
+			eventpp::HeterEventDispatcher<int, HTO> d;
+			for(int i = 0; i < nS; ++i) d.appendListener(1, cs(i));
+			for(int i = 0; i < nC; ++i) d.appendListener(1, cc(i));
+			if(arg == 0) d.dispatch(1, text); else if(arg == 1) d.dispatch(1, cstr); else d.dispatch(1, "overlap-argument-longer-than-the-small-string-buffer");
+		}
+		else {
+			eventpp::HeterEventQueue<int, HTO> q;
+			for(int i = 0; i < nS; ++i) q.appendListener(1, cs(i));
+			for(int i = 0; i < nC; ++i) q.appendListener(1, cc(i));
+			if(arg == 0) q.enqueue(1, text); else if(arg == 1) q.enqueue(1, cstr); else q.enqueue(1, "overlap-argument-longer-than-the-small-string-buffer");
+			q.process();
+		}
+		// every argument form is callable with the first prototype: exactly the std::string callbacks run, in order
+		for(int i = 0; i < nS; ++i) want.push_back(fmt("S%d:%s", i, text.c_str()));
+		for(auto & g : got) ctx.obsStr(g);
+		if(got != want) { std::string g; for(auto & x : got) g += x.substr(0, 12) + " "; ctx.fail("first-prototype-not-selected", fmt("%s reached [%s] instead of the %d callbacks of the first listed prototype", desc.c_str(), g.c_str(), nS)); }
+		b.stepEnd(fmt("done%d.%d.%d.%d", cls, nS, nC, arg));
+	}
+};
+
 template <typename H>
 static void addUnit(const std::string & name, int minTier, Cfg cfg, int dq, int dt) {
 	Unit u; u.name = name; u.minTier = minTier;
 	u.run = [=](Ctx & ctx, UnitReport & rep, int tier) {
 		H h(ctx, cfg);
-		BfsOptions o; o.maxDepth = tier ? dt : dq; o.innerBudget = 0;
+		BfsOptions o; o.keyIncludesLastOp = true; o.maxDepth = tier ? dt : dq; o.innerBudget = 0;
 		Bfs b(ctx, o);
 		b.run([&](Bfs & bb) { h.body(bb); }, [&]() { h.after(); });
 		fillBfsReport(rep, b.res);
@@ -447,7 +496,7 @@ static struct Register {
 	Register() {
 		Cfg c;
 #if SEL(0)
-		addUnit<QHarness<MT> >("C14/HeterEventQueue/multi", 0, c, 5, 8);
+		addUnit<QHarness<MT> >("C14/HeterEventQueue/multi", 0, c, 4, 8);
 #endif
 #if SEL(1)
 		addUnit<QHarness<ST> >("C14/HeterEventQueue/single", 0, c, 4, 8);
@@ -460,12 +509,23 @@ static struct Register {
 		{
 			Unit u; u.name = "C14/include-mode-key-value-categories"; u.minTier = 0;
 			u.run = [](Ctx & ctx, UnitReport & rep, int) {
-				InclHarness h(ctx); BfsOptions o; o.maxDepth = 1; Bfs b(ctx, o);
+				InclHarness h(ctx); BfsOptions o; o.keyIncludesLastOp = true; o.maxDepth = 1; Bfs b(ctx, o);
 				b.run([&](Bfs & bb) { h.body(bb); }, nullptr);
 				fillBfsReport(rep, b.res);
 				rep.str["config"] = "HeterEventDispatcher/HeterEventQueue<std::string, ..., ArgumentPassingIncludeEvent>: key as lvalue/const lvalue/prvalue/std::move x 2 prototypes";
 			};
 			u.replay = [](Ctx & ctx, const std::vector<int> & seq) { InclHarness h(ctx); replayBody(ctx, seq, [&](Bfs & bb) { h.body(bb); }, nullptr); };
+			units().push_back(u);
+		}
+		{
+			Unit u; u.name = "C14/overlapping-prototypes"; u.minTier = 0;
+			u.run = [](Ctx & ctx, UnitReport & rep, int) {
+				OverlapHarness h(ctx); BfsOptions o; o.maxDepth = 1; Bfs b(ctx, o);
+				b.run([&](Bfs & bb) { h.body(bb); }, nullptr);
+				fillBfsReport(rep, b.res);
+				rep.str["config"] = "HeterTuple<void(const std::string&), void(const char*)>: 3 classes x 0..2 callbacks per prototype x 3 argument forms";
+			};
+			u.replay = [](Ctx & ctx, const std::vector<int> & seq) { OverlapHarness h(ctx); replayBody(ctx, seq, [&](Bfs & bb) { h.body(bb); }, nullptr); };
 			units().push_back(u);
 		}
 #endif
